@@ -163,6 +163,8 @@ def run(ctx):
                         "out-of-line modules are resolved although recursion is switched off (stdin / skip_children)",
                         ["%s:%d" % (vc.file, vc.line)])
 
+    skipped_modules_not_resolved(ctx, "R13-e")
+
     D = r.rule("R13-d", "ParseSess::default_submod_path retries in the declaring file's own directory only for "
                         "ModError::FileNotFound with a relative owner, every other error is passed on unchanged; the module map "
                         "is a BTreeMap<FileName, _> filled through entry().or_insert")
@@ -238,3 +240,40 @@ def run(ctx):
     for (f, c) in bad:
         r.violation(D, "file_map filled with %s in %s" % (c.name.rsplit("::", 1)[-1], short(f.id)),
                     "a file reached twice replaces its first entry instead of being kept once (entry().or_insert)", [c.loc()])
+
+
+def skipped_modules_not_resolved(ctx, rid):
+    """R13-e / R04-e: a `mod` item carrying a skip attribute is never resolved"""
+    import c04
+    p, r = ctx.p, ctx.r
+    r.rule(rid, "every route to ModResolver::find_external_module / the Internal sub-module result passes a contains_skip test on "
+                "the mod item's attributes whose true edge answers `nothing to visit`: the test sits in peek_sub_mod (through which "
+                "every visit_sub_mod goes), or else in front of every call of visit_sub_mod")
+    pk = p.named("peek_sub_mod", within="modules::ModResolver")
+    vs = p.named("visit_sub_mod", within="modules::ModResolver")
+    if pk is None or vs is None:
+        r.undecidable(rid, "peek_sub_mod / visit_sub_mod not found")
+        return
+    targets = [c for c in pk.calls() if c.name.endswith("::find_external_module")]
+    gs = c04.guards_dominating(pk, targets[0].bb) if targets else []
+    central = bool(gs) and any(g.name == c04.CONTAINS_SKIP for (g, sw, t) in gs)
+    # peek_sub_mod must be the only way into find_external_module
+    fe_callers = {src for (src, kind, c) in p.callers().get(targets[0].resolved, [])} if targets else set()
+    if central and fe_callers <= {pk.id}:
+        r.instance(rid, "peek_sub_mod: contains_skip dominates find_external_module", "ok", "%s:%d" % (pk.file, pk.line))
+        r.floor(rid, 1, 1, "central guard")
+        return
+    # otherwise every call site of visit_sub_mod must be guarded in its caller
+    sites = [(src, c) for (src, kind, c) in p.callers().get(vs.id, []) if c is not None and kind == "direct"]
+    n = 0
+    for src, c in sites:
+        f = p.fns[src]
+        ok = bool(c04.guards_dominating(f, c.bb))
+        n += 1
+        r.instance(rid, "%s: visit_sub_mod #%d" % (short(src), c.ordinal), "ok" if ok else "violation", c.loc())
+        if not ok:
+            r.violation(rid, "%s resolves a module without a skip test" % short(src),
+                        "peek_sub_mod no longer tests #[rustfmt::skip] and this caller of visit_sub_mod has no test of its own: a "
+                        "skipped `mod x;` declared here (e.g. inside cfg_if!/cfg_match!) is resolved, parsed and formatted",
+                        [c.loc()])
+    r.floor(rid, n, 1, "call sites of visit_sub_mod")
